@@ -31,6 +31,7 @@ Expected(e) ==
        [] e.call = "AddBit"       -> [ok |-> TRUE, s |-> BL!AfterAddBit(s, a), ret |-> <<>>]
        [] e.call = "AddBits"      -> [ok |-> TRUE, s |-> BL!AfterAddBits(s, a[1], a[2]), ret |-> <<>>]
        [] e.call = "AddByte"      -> [ok |-> TRUE, s |-> BL!AfterAddByte(s, a[1]), ret |-> <<>>]
+       [] e.call = "AddByteN"     -> [ok |-> TRUE, s |-> BL!AfterAddByteN(s, a[1], a[2]), ret |-> <<>>]
        [] e.call = "SetBit"       -> IF a[1] < Len(s) THEN [ok |-> TRUE, s |-> BL!AfterSetBit(s, a[1], a[2]), ret |-> <<>>]
                                                       ELSE [ok |-> FALSE, s |-> s, ret |-> <<>>]
        [] e.call = "GetBit"       -> IF a[1] < Len(s) THEN [ok |-> TRUE, s |-> s, ret |-> <<s[a[1] + 1]>>]
